@@ -166,6 +166,16 @@ func Generate(rng *rand.Rand, o Options) []Entry {
 		for i := 0; i < n; i++ {
 			names = append(names, randName(rng, o.OddNames, used))
 		}
+		// siblings whose names are prefixes of one another (lib, lib64, lib.txt)
+		if n > 0 && rng.Intn(3) == 0 {
+			base := names[rng.Intn(len(names))]
+			for _, suf := range []string{"64", ".txt", "-b", "0"} {
+				if cand := base + suf; len(cand) <= 255 && !used[cand] && rng.Intn(2) == 0 {
+					used[cand] = true
+					names = append(names, cand)
+				}
+			}
+		}
 		sort.Strings(names)
 		for _, name := range names {
 			p := name
